@@ -359,7 +359,7 @@ class linkseq(LinkSequence[_T], MutableSequence[_T]):
             arrival = value
             departure = self._link_at(index)
             self._hook_check((arrival,), (departure.value,))
-            departure.value = arrival
+            self._revalue(((departure, arrival),))
             return
 
         if isinstance(i, slice):
@@ -372,8 +372,7 @@ class linkseq(LinkSequence[_T], MutableSequence[_T]):
                 return
             self._hook_check(arrivals, self[slice_])
             link_it = iter_links_sliced(self, slice_)
-            for link, arrival in zip(link_it, arrivals):
-                link.value = arrival
+            self._revalue(tuple(zip(link_it, arrivals)))
             return
 
         raise Emsg.InstCheck(i, (SupportsIndex, slice))
@@ -395,6 +394,11 @@ class linkseq(LinkSequence[_T], MutableSequence[_T]):
              self.__link_last__, self.__link_first__)
 
     #******  Link update methods
+
+    def _revalue(self, pairs: Sequence[tuple[Link, Any]], /) -> None:
+        """Assign new values to existing links. This is called by ``__setitem__``."""
+        for link, value in pairs:
+            link.value = value
 
     def _seed(self, link: Link, /) -> None:
         """Add the link as the intial (only) member. This is called by ``__setitem__``,
@@ -550,6 +554,14 @@ class linqset(linkseq[_T], MutableSequenceSet[_T]):
         super()._unlink(link)
         del self.__table[link.value]
 
+    def _revalue(self, pairs, /) -> None:
+        # keep the hash table in step with the links' values
+        for link, _ in pairs:
+            del self.__table[link.value]
+        super()._revalue(pairs)
+        for link, _ in pairs:
+            self.__table[link.value] = link
+
     def clear(self):
         super().clear()
         self.__table.clear()
@@ -566,3 +578,10 @@ class linqset(linkseq[_T], MutableSequenceSet[_T]):
             departures.__contains__,
             filter(self.__contains__, arrivals)):
             raise Emsg.DuplicateValue(v)
+        if len(arrivals) > 1:
+            # arriving values must also be distinct from each other
+            seen = set()
+            for v in arrivals:
+                if v in seen:
+                    raise Emsg.DuplicateValue(v)
+                seen.add(v)
